@@ -92,36 +92,62 @@ Proof.
     inversion Hs. reflexivity.
 Qed.
 
+Section WithB.
+Variable Bf : string -> value.
+Local Notation ssem := (StmtSem.ssem Bf).
+Local Notation RunsS := (StmtCorrect.RunsS Bf).
+Local Notation comp_stmt := (StmtCorrect.comp_stmt Bf).
+Local Notation value_on_stack := (StmtCorrect.value_on_stack Bf).
+Local Notation bcode := (StmtCorrect.bcode Bf).
+
+(* the built-ins stay where they are when more code is appended and when only memories, contexts and
+   the world change *)
+Lemma bcode_same v1 v2 : v_cs v2 = v_cs v1 -> v_frames v2 = v_frames v1 -> bcode v1 -> bcode v2.
+Proof.
+  intros Hc Hf H nm b mo fid Hb Hbf. destruct (H nm b mo fid Hb Hbf) as (morph & fid' & fr & i1 & i2 & R).
+  exists morph, fid', fr, i1, i2. rewrite Hc, Hf. exact R.
+Qed.
+
+Lemma bcode_extend v s s' code : rcs s' = rev code ++ rcs s -> bcode (load_code v s) -> bcode (load_code v s').
+Proof.
+  intros R H nm b mo fid Hb Hbf. destruct (H nm b mo fid Hb Hbf) as (morph & fid' & fr & i1 & i2 & R1 & R2 & R3 & R4 & R5 & R6 & R7).
+  exists morph, fid', fr, i1, i2. cbn [load_code v_cs v_frames] in *. rewrite R, rev_app_distr, rev_involutive.
+  split; [exact R1|]. split; [exact R2|]. split; [exact R3|]. split; [exact R4|].
+  split; [apply znth_app_l; exact R5|]. split; [apply znth_app_l; exact R6|exact R7].
+Qed.
+
 (* the reset after an error keeps the unread input *)
 Lemma reset_in v c me :
   assoc_get (v_ctxs v) 0 = Some c -> c_children c = [] ->
-  v_in (reset_after_error (St v 0 me)) = v_in v.
+  v_in (reset_after_error (St v 0 me)) = v_in v /\ v_next (reset_after_error (St v 0 me)) = v_next v /\
+  v_frames (reset_after_error (St v 0 me)) = v_frames v /\ v_cs (reset_after_error (St v 0 me)) = v_cs v.
 Proof.
   intros Hc Hch. unfold reset_after_error.
   change (v_ctxs (St v 0 me)) with (v_ctxs v). rewrite Hc, Hch. cbn [fold_left].
   pose proof (St_get v 0 me) as G. unfold get_mem in G.
   destruct (assoc_get (v_mems (St v 0 me)) 0) as [m0|] eqn:E; [|discriminate G].
-  rewrite St_St. change (v_ctxs (St v 0 (mReset m0))) with (v_ctxs v). rewrite Hc. reflexivity.
+  rewrite St_St. change (v_ctxs (St v 0 (mReset m0))) with (v_ctxs v). rewrite Hc. repeat split; reflexivity.
 Qed.
 
-Lemma wof_eq v v' : v_globals v = v_globals v' -> v_out v = v_out v' -> v_in v = v_in v' -> wof v = wof v'.
-Proof. unfold wof. intros -> -> ->. reflexivity. Qed.
+Lemma wof_eq v v' : v_globals v = v_globals v' -> v_out v = v_out v' -> v_in v = v_in v' -> v_next v = v_next v' ->
+  wof v = wof v'.
+Proof. unfold wof. intros -> -> -> ->. reflexivity. Qed.
 
 (* Run ended with value x, in world W', the machine clean *)
 Definition ran_to_value_w (v : vm) (c : ctx) (m : mem) (s' : cstate) (W' : world) (x : value)
            (res : vm * run_result) : Prop :=
   exists v' m', res = (v', RValue x) /\
     assoc_get (v_mems v') (c_mid c) = Some m' /\ m_sp m' = m_sp m /\ msame (m_sp m) m m' /\
-    wof v' = W' /\
+    wof v' = W' /\ v_frames v' = v_frames v /\
     (exists c', assoc_get (v_ctxs v') 0 = Some c' /\ c_ip c' = ncs s' /\ c_mid c' = c_mid c /\
                 c_children c' = c_children c).
 
 (* ---- value mode ---- *)
 Theorem bytecode_run_stmt t s s' v c m n G' res :
-  wstmt t = true -> wfcs s -> idle v s c m ->
+  wstmt t = true -> wfcs s -> idle v s c m -> bcode (load_code v s) ->
   ByteCode t s = CompOk s' ->
   ssem n (wof v) t = Some (G', res) ->
-  wfcs s' /\
+  wfcs s' /\ (exists code, rcs s' = rev code ++ rcs s) /\
   exists k, forall fuel,
     ((fuel <= k)%nat -> snd (Run fuel (load_code v s') true) = RFuel \/
                         match res with
@@ -136,7 +162,7 @@ Theorem bytecode_run_stmt t s s' v c m n G' res :
                                   = (reset_after_error (SG (load_code v s') G' (c_mid c) me), RError err rep)
      end).
 Proof.
-  intros Hw Hwf Hid HB HM.
+  intros Hw Hwf Hid Hbc0 HB HM.
   unfold ByteCode in HB. rewrite pass_fl0 in HB.
   destruct ((instr <- comp t 0 (tfl false);; (if negb (Src0 instr =? AddrStck) then emit (Z.lor instr (New PUSH)) else cret tt)) s)
     as [[u sfin]| |] eqn:HC; try discriminate HB. injection HB as <-.
@@ -152,6 +178,9 @@ Proof.
       + apply wfcs_emitted. exact W1. }
   destruct Hpush as [Lp [Rdf [Ndf Wfin]]].
   split; [exact Wfin|].
+  assert (Lfin0 : lay s sfin (code ++ push_code K w)) by (apply (lay_trans s s1 sfin); assumption).
+  split; [exists (code ++ push_code K w); exact (proj1 Lfin0)|].
+  pose proof (bcode_extend v s sfin _ (proj1 Lfin0) Hbc0) as Hbc.
   assert (XS : RunsS (fun G => ssem n G t) false s sfin s1 (code ++ push_code K w) AddrStck 0).
   { apply (value_on_stack _ s s1 sfin s1 code K A w (X n) NTmp NInv Sk Ew).
     - destruct L1 as (_ & N & _). exact N.
@@ -162,7 +191,7 @@ Proof.
   pose proof (code_at_loaded v s sfin _ Hwf (proj1 Lfin)) as Hc. fold v1 in Hc.
   assert (Hd1 : data_at v1 s1).
   { intros i y Hy. cbn [v1 load_code v_ds]. rewrite Rdf. exact Hy. }
-  pose proof (XS true v1 (c_mid c) m r0 G' res Hc Hd1 (start_mid v s sfin c m Hid) (id_sp _ _ _ _ Hid)
+  pose proof (XS true v1 (c_mid c) m r0 G' res Hbc Hc Hd1 (start_mid v s sfin c m Hid) (id_sp _ _ _ _ Hid)
                  (start_ip v s c m Hid) HM) as E.
   pose proof (start_self v s sfin c m Hid) as Hself. fold v1 in Hself. rewrite Hself in E.
   destruct res as [x|err].
@@ -178,6 +207,7 @@ Proof.
       * unfold mdrop, with_stack; cbn [m_sp]. lia.
       * apply mdrop_msame; [exact Hm3|lia].
       * destruct G'; reflexivity.
+      * reflexivity.
       * eexists. conj; [cbn [set_mem v_ctxs set_ctx]; apply assoc_get_set_same| |reflexivity|reflexivity].
         cbn [c_ip]. exact Hi3.
     + rewrite Hi3. reflexivity.
@@ -203,7 +233,7 @@ Definition ran_to_end (v : vm) (c : ctx) (m : mem) (s' : cstate) (G' : world) (r
                 c_children c' = c_children c).
 
 Theorem bytecode_nostck_run_stmt t s s' v c m n G' res :
-  wstmt t = true -> wfcs s -> idle v s c m ->
+  wstmt t = true -> wfcs s -> idle v s c m -> bcode (load_code v s) ->
   ByteCodeNoStck t s = CompOk s' ->
   ssem n (wof v) t = Some (G', res) ->
   wfcs s' /\
@@ -214,7 +244,7 @@ Theorem bytecode_nostck_run_stmt t s s' v c m n G' res :
                                  = (reset_after_error (SG (load_code v s') G' (c_mid c) me), RError err rep)
     end.
 Proof.
-  intros Hw Hwf Hid HB HM.
+  intros Hw Hwf Hid Hbc0 HB HM.
   unfold ByteCodeNoStck in HB. rewrite discard_fl0 in HB.
   destruct ((instr <- comp t 0 (tfl true);; (if Src0 instr =? AddrStck then emit (New POP) else cret tt)) s)
     as [[u sfin]| |] eqn:HC; try discriminate HB. injection HB as <-.
@@ -226,11 +256,12 @@ Proof.
   set (v1 := load_code v sfin).
   set (r0 := {| r_ctx := 0; r_ip := c_ip c; r_tmp := VNil |}).
   assert (Lfin : lay s sfin (code ++ pop_code K)) by (apply (lay_trans s s1 sfin); assumption).
+  pose proof (bcode_extend v s sfin _ (proj1 Lfin) Hbc0) as Hbc.
   pose proof (code_at_loaded v s sfin _ Hwf (proj1 Lfin)) as Hc. fold v1 in Hc.
   pose proof Hc as Hc0. apply code_at_app in Hc. destruct Hc as [HcC HcP].
   assert (Hd1 : data_at v1 s1).
   { intros i y Hy. cbn [v1 load_code v_ds]. rewrite Rdf. exact Hy. }
-  pose proof (X n false v1 (c_mid c) m r0 G' res HcC Hd1 (start_mid v s sfin c m Hid) (id_sp _ _ _ _ Hid)
+  pose proof (X n false v1 (c_mid c) m r0 G' res Hbc HcC Hd1 (start_mid v s sfin c m Hid) (id_sp _ _ _ _ Hid)
                  (start_ip v s c m Hid) HM) as E.
   pose proof (start_self v s sfin c m Hid) as Hself. fold v1 in Hself. rewrite Hself in E.
   pose proof (id_sp _ _ _ _ Hid) as Hsp.
@@ -277,24 +308,25 @@ Proof.
     rewrite (run_loop_steps_error false k v1 r0 (fuel - k) _ _ _ _ _ (start_ncs v sfin Wfin) Hs). eauto.
 Qed.
 
-(* ---- the definitional semantics and the compiled code agree, both modes ---- *)
+(* ---- the definitional semantics and the compiled code agree ---- *)
+(* both are given the same world: where no function values are bound (the built-ins are bound to
+   different representations on the two sides; see ssem_related for worlds that differ there) *)
 Theorem statement_compiled_correctly t s s' v c m n env st G' res :
-  wstmt t = true -> wfcs s -> idle v s c m -> wof_s st = wof v ->
+  wstmt t = true -> wfcs s -> idle v s c m -> bcode (load_code v s) -> sem_bf Bf st -> wof_s st = wof v ->
   ByteCode t s = CompOk s' ->
   ssem n (wof v) t = Some (G', res) ->
-  eval n t env st = Done (with_world st G') (ctl_of res) /\
+  (exists st', eval n t env st = Done st' (ctl_of res) /\ wof_s st' = G') /\
   exists k, forall fuel, (k < fuel)%nat ->
     agrees (ctl_of res) (snd (Run fuel (load_code v s') true)) /\
     match res with Ok _ => wof (fst (Run fuel (load_code v s') true)) = G' | Fail _ => True end.
 Proof.
-  intros Hw Hwf Hid Hg HB HM. split.
-  - apply eval_stmt; [exact Hw|]. rewrite Hg. exact HM.
-  - destruct (bytecode_run_stmt t s s' v c m n G' res Hw Hwf Hid HB HM) as [_ [k R]].
+  intros Hw Hwf Hid Hbc Hsb Hg HB HM. split.
+  - rewrite <- Hg in HM. destruct (eval_stmt Bf n t Hw env st G' res Hsb HM) as (st' & E & HW & _). eauto.
+  - destruct (bytecode_run_stmt t s s' v c m n G' res Hw Hwf Hid Hbc HB HM) as [_ [_ [k R]]].
     exists k. intros fuel Hf. specialize (R fuel). destruct R as [_ R]. specialize (R Hf). destruct res as [x|err].
     + destruct R as [v' [m' [R [_ [_ [_ [Hg' _]]]]]]]. rewrite R. split; [reflexivity|exact Hg'].
     + destruct R as [me [rep R]]. rewrite R. split; [reflexivity|exact I].
 Qed.
-
 
 (* ---- through run_tree, statement after statement ---- *)
 Lemma resolve_wstmt : forall t, wstmt t = true -> resolve t [] = Some (t, []).
@@ -312,6 +344,11 @@ Proof.
   - intros c a b Hc _ _ Ha Hb. cbn [resolve]. unfold rbind. rewrite (resolve_pure c Hc), Ha, Hb. reflexivity.
   - intros c b Hc _ Hb. cbn [resolve]. unfold rbind. rewrite (resolve_pure c Hc), Hb. reflexivity.
   - intros e He. cbn [resolve]. unfold rbind. rewrite (resolve_pure e He). reflexivity.
+  - intros nm b e _ He.
+    change (resolve (NCall (NName nm) [e]) []) with
+      (rbind (resolve (NName nm)) (fun name' => rbind (resolve_list_of [e]) (fun args' => rret (NCall name' args'))) []).
+    unfold rbind. rewrite (resolve_pure (NName nm) eq_refl). cbn [resolve_list_of]. unfold rbind.
+    rewrite (resolve_pure e He). reflexivity.
 Qed.
 
 (* what running a statement leaves: value or error class as the semantics says, and its world — the global
@@ -322,39 +359,50 @@ Definition stmt_outcome (mc : machine) (t : node) (G' : world) (sres : res value
   r = TRefused \/ r = TFuel \/
   (tree_agrees r sres /\ wof (mc_vm mc') = G' /\ rest mc').
 
+Definition bready (mc : machine) (c : ctx) (m : mem) : Prop :=
+  ready mc c m /\ bcode (load_code (mc_vm mc) (mc_cs mc)).
+
 Theorem stmt_step t mc c m n G' sres :
-  ready mc c m -> wstmt t = true -> wfb t = true ->
+  bready mc c m -> wstmt t = true -> wfb t = true ->
   ssem n (wof (mc_vm mc)) t = Some (G', sres) ->
-  stmt_outcome mc t G' sres (fun mc' => exists c' m', ready mc' c' m').
+  stmt_outcome mc t G' sres (fun mc' => exists c' m', bready mc' c' m').
 Proof.
-  intros [[Hwf Hid] [Hmid Hch]] Hw Hb HM. unfold stmt_outcome.
+  intros [[[Hwf Hid] [Hmid Hch]] Hbc] Hw Hb HM. unfold stmt_outcome.
   unfold run_tree, strewrite. rewrite (resolve_wstmt t Hw). cbn [negb].
   destruct (ByteCode t (mc_cs mc)) as [s'|s0|w] eqn:HB.
-  - destruct (bytecode_run_stmt t (mc_cs mc) s' (mc_vm mc) c m n G' sres Hw Hwf Hid HB HM) as [W [k R]].
+  - destruct (bytecode_run_stmt t (mc_cs mc) s' (mc_vm mc) c m n G' sres Hw Hwf Hid Hbc HB HM) as [W [[code0 Rcode] [k R]]].
+    pose proof (bcode_extend (mc_vm mc) (mc_cs mc) s' code0 Rcode Hbc) as Hbc'.
     specialize (R session_fuel). destruct R as [Rle Rgt].
     destruct (Nat.lt_ge_cases k session_fuel) as [Hlt|Hge].
     + specialize (Rgt Hlt). right. right. destruct sres as [x|err].
-      * destruct Rgt as [v' [m' (R & Hm' & Hsp' & Hms & Hg & [c' [Hc' [Hip' [Hmid' Hch']]]])]]. rewrite R.
+      * destruct Rgt as [v' [m' (R & Hm' & Hsp' & Hms & Hg & Hfr' & [c' [Hc' [Hip' [Hmid' Hch']]]])]]. rewrite R.
         cbn [fst snd mc_vm tree_agrees]. conj; try reflexivity; try assumption.
-        exists c', m'. split; [|split; congruence]. split; [exact W|]. cbn [mc_vm mc_cs].
-        constructor; try assumption.
-        -- rewrite Hmid'. exact Hm'.
-        -- destruct Hms as (_&_&_&_&_&B). pose proof (id_sp _ _ _ _ Hid). lia.
+        exists c', m'. split.
+        { split; [|split; congruence]. split; [exact W|]. cbn [mc_vm mc_cs].
+          constructor; try assumption.
+          -- rewrite Hmid'. exact Hm'.
+          -- destruct Hms as (_&_&_&_&_&B). pose proof (id_sp _ _ _ _ Hid). lia. }
+        cbn [mc_vm mc_cs]. apply (bcode_same (load_code (mc_vm mc) s')); [reflexivity| |exact Hbc'].
+        cbn [load_code v_frames]. exact Hfr'.
       * destruct Rgt as [me [rep R]]. rewrite R. cbn [fst snd mc_vm tree_agrees]. rewrite Hmid.
         destruct (reset_ready (set_world (load_code (mc_vm mc) s') G') s' c me W eq_refl (id_ctx _ _ _ _ Hid) Hmid Hch)
           as [c' [m' [Hr [Hg Ho]]]].
-        pose proof (reset_in (set_world (load_code (mc_vm mc) s') G') c me (id_ctx _ _ _ _ Hid) Hch) as Hin.
-        conj; [reflexivity| |exists c', m'; exact Hr].
-        etransitivity; [exact (wof_eq _ _ Hg Ho Hin)|apply wof_set_world].
+        pose proof (reset_in (set_world (load_code (mc_vm mc) s') G') c me (id_ctx _ _ _ _ Hid) Hch) as [Hin [Hnx [Hfr Hcs]]].
+        conj; [reflexivity| |exists c', m'; split; [exact Hr|]].
+        { etransitivity; [exact (wof_eq _ _ Hg Ho Hin Hnx)|apply wof_set_world]. }
+        cbn [mc_vm mc_cs]. apply (bcode_same (load_code (mc_vm mc) s')); [reflexivity| |exact Hbc'].
+        etransitivity; [exact Hfr|reflexivity].
     + specialize (Rle Hge). destruct Rle as [F|Rle].
       * right. left. destruct (Run session_fuel (load_code (mc_vm mc) s') true) as [v' rr]. cbn [snd] in *. rewrite F. reflexivity.
       * right. right. destruct sres as [x|err]; [contradiction|].
         destruct Rle as [me [rep R]]. rewrite R. cbn [fst snd mc_vm tree_agrees]. rewrite Hmid.
         destruct (reset_ready (set_world (load_code (mc_vm mc) s') G') s' c me W eq_refl (id_ctx _ _ _ _ Hid) Hmid Hch)
           as [c' [m' [Hr [Hg Ho]]]].
-        pose proof (reset_in (set_world (load_code (mc_vm mc) s') G') c me (id_ctx _ _ _ _ Hid) Hch) as Hin.
-        conj; [reflexivity| |exists c', m'; exact Hr].
-        etransitivity; [exact (wof_eq _ _ Hg Ho Hin)|apply wof_set_world].
+        pose proof (reset_in (set_world (load_code (mc_vm mc) s') G') c me (id_ctx _ _ _ _ Hid) Hch) as [Hin [Hnx [Hfr Hcs]]].
+        conj; [reflexivity| |exists c', m'; split; [exact Hr|]].
+        { etransitivity; [exact (wof_eq _ _ Hg Ho Hin Hnx)|apply wof_set_world]. }
+        cbn [mc_vm mc_cs]. apply (bcode_same (load_code (mc_vm mc) s')); [reflexivity| |exact Hbc'].
+        etransitivity; [exact Hfr|reflexivity].
   - left. reflexivity.
   - exfalso. destruct (bytecode_never_aborts t (mc_cs mc) Hb) as [NA _].
     + destruct Hwf as [Hn _]. rewrite Hn. unfold zlen. lia.
@@ -372,7 +420,7 @@ Fixpoint sess (mc : machine) (G : world) (ts : list node) : Prop :=
   end.
 
 Theorem stmt_session : forall ts mc c m,
-  ready mc c m -> Forall (fun t => wstmt t = true /\ wfb t = true) ts ->
+  bready mc c m -> Forall (fun t => wstmt t = true /\ wfb t = true) ts ->
   sess mc (wof (mc_vm mc)) ts.
 Proof.
   induction ts as [|t r IH]; intros mc c m Hr Hall; [exact I|].
@@ -399,3 +447,4 @@ Proof.
   assert (E : Nat.leb (height c) n = true) by (apply Nat.leb_le; lia). rewrite E.
   rewrite (cond_res_not (w_glob G) c Hp) in H. destruct (cond_res (den (w_glob G) c)) as [[|]|e]; exact H.
 Qed.
+End WithB.
